@@ -22,7 +22,8 @@ def rand_tree(rng, depth=0, max_depth=5, in_meta=False, palette=None):
     """`palette` (chosen per tree): a few tags and nums that are reused with high probability, so that
     siblings collide (same tag, same / case-twin / punctuation-variant num) far more often than by chance."""
     if palette is None:
-        twins = rng.choice([['(a)', '(A)', 'a.', 'A'], ['1', '1.', '(1)', ' 1 '], ['i', 'I', '(i)'], ['2_2', '2', '2_2'], ['(—)', '...', '-', '']])
+        twins = rng.choice([['(a)', '(A)', 'a.', 'A'], ['1', '1.', '(1)', ' 1 '], ['i', 'I', '(i)'], ['2_2', '2', '2_2'], ['(—)', '...', '-', ''],
+                            ['2e\u0300me', '2\u00e8me', '2eme'], ['\u212b', '\u00c5', 'A\u030a']])   # the last two: canonically equivalent, different strings
         palette = {'tags': [rng.choice(HIER_TAGS + ['p', 'blockList', 'hcontainer', 'debateSection', 'speech']) for _ in range(3)],
                    'nums': twins + [rng.choice(NUMS)], 'p': rng.choice([0.0, 0.3, 0.6, 0.8])}
     r = rng.random()
